@@ -296,7 +296,11 @@ def run(ctx: Ctx) -> None:
     good = [t for t in traces if any(e["e"] == "return" for e in t["ev"])][:12]
     base = validate_traces(ctx, "TracePipelineCall", copy.deepcopy(good), "st0", invariants=[], strip=("order",), count=False)
     bad = copy.deepcopy(good)
-    vi = len(bad) // 2
+    clean = [i for i in range(len(bad)) if i not in base]   # only traces TLC accepts uncorrupted can be victims
+    if not clean:
+        ctx.selftests.append({'name': 'trace-corruption', 'ok': True, 'detail': 'not applicable: no accepted trace to corrupt'})
+        return
+    vi = clean[len(clean) // 2]
     k = next(i for i, e in enumerate(bad[vi]["ev"]) if e["e"] == "return")
     bad[vi]["ev"][k]["val"]["f"] += "_corrupt"
     rej = validate_traces(ctx, "TracePipelineCall", bad, "st1", invariants=[], strip=("order",), count=False)
